@@ -41,6 +41,9 @@ MACROS = (
     A.macro("m6", ("k",), A.seq(A.gate("g", "c"), A.gate("h", A.item("q", "k"), 2.0))),
     # a register parameter named like the alias that is passed for it, indexed inside
     A.macro("m7", ("b",), A.seq(A.gate("g", A.item("b", 1)))),
+    # calls an earlier macro whose parameter is called p with ANOTHER of its own parameters, and uses its own p
+    # afterwards (a binding that leaks out of the inner call shows here)
+    A.macro("m8", ("p", "r"), A.seq(A.gate("m", "r"), A.gate("g2", "p", "r"), A.gate("m", "p"))),
 )
 
 LEAVES = (
@@ -58,6 +61,7 @@ LEAVES = (
     A.gate("h", A.item("q", "n"), "n"),  # textually identical to a statement of m5, where n is a parameter
     A.gate("m7", "b"),
     A.gate("m4", 1, 0),  # a second call of m4 with other numbers
+    A.gate("m8", A.item("q", 0), "c"),
 )
 
 
